@@ -515,3 +515,576 @@ Proof.
   - apply (Pinv_do_next g HI HK P). exact Ev.
   - exact I.
 Qed.
+
+(* ---------- (5) a measure that every accepted step decreases ---------- *)
+Definition stacks (g : gstate) : Z := zsum (map p_stack (g_players g)).
+Definition bankrolls (g : gstate) : Z := zsum (map p_bankroll (g_players g)).
+Definition pending (g : gstate) : Z := zn (length (filter (fun p => negb (p_acted p)) (g_players g))).
+Definition mu (g : gstate) : Z := stacks g * (zn (nplayers g) + 1) + pending g.
+Definition Wbound (g : gstate) : Z := bankrolls g * (zn (nplayers g) + 1) + zn (nplayers g) + 1.
+Definition measure (g : gstate) : Z := (15 - zn (pos_of (ph g))) * Wbound g + mu g.
+
+Definition stk (c : Z * Z * Z * Z * Z) : Z := match c with (_, _, s, _, _) => s end.
+
+Lemma stacks_cv g : stacks g = zsum (map stk (cv_players g)).
+Proof. unfold stacks, cv_players. rewrite map_map. reflexivity. Qed.
+
+Lemma stacks_view g g' : chips_view g' = chips_view g -> stacks g' = stacks g.
+Proof. intros H. rewrite !stacks_cv. destruct (cv_parts _ _ H) as (_ & -> & _). reflexivity. Qed.
+
+Lemma zsum_update_nth_gen (f : Z * Z * Z * Z * Z -> Z) l i c d :
+  (i < length l)%nat -> zsum (map f (update_nth i (fun _ => c) l)) = zsum (map f l) - f (nth i l d) + f c.
+Proof.
+  revert i; induction l as [|y t IH]; intros i Hi; simpl in *; [lia|].
+  destruct i as [|i]; simpl; [lia|]. rewrite IH by lia. lia.
+Qed.
+
+Lemma stacks_pay g i chips w :
+  (i < nplayers g)%nat ->
+  stacks (pay g i chips w) = stacks g - (if p_stack (get_p g i) <=? chips then p_stack (get_p g i) else chips)
+                             + (if p_stack (get_p g i) <=? chips then 0 else p_initial (get_p g i) - p_wager (get_p g i) - p_stack (get_p g i)).
+Proof.
+  intros Hi. rewrite !stacks_cv. destruct (pay_view g i chips w Hi) as (_ & Hpl & _). rewrite Hpl.
+  rewrite (zsum_update_nth_gen stk _ i _ (chips_of dflt_p)) by (unfold cv_players; rewrite map_length; exact Hi).
+  rewrite <- get_p_cv by exact Hi. rewrite (pay_chips g i chips w Hi). cbv zeta.
+  destruct (p_stack (get_p g i) <=? chips); unfold chips_of, stk; lia.
+Qed.
+
+(* a payment of at least one chip by a seat that has chips takes at least one chip off the stacks *)
+Lemma stacks_pay_lt g i chips w :
+  (i < nplayers g)%nat -> seat_ok (get_p g i) -> 0 < chips -> p_stack (get_p g i) <> 0 ->
+  stacks (pay g i chips w) <= stacks g - 1.
+Proof.
+  intros Hi (A & B & C & D & F) Hc Hs. rewrite (stacks_pay g i chips w Hi).
+  destruct (p_stack (get_p g i) <=? chips) eqn:E; [apply Z.leb_le in E|apply Z.leb_gt in E]; lia.
+Qed.
+
+Lemma filter_len_le {A} (f : A -> bool) l : (length (filter f l) <= length l)%nat.
+Proof. induction l as [|y t IH]; simpl; [lia|]. destruct (f y); simpl; lia. Qed.
+
+Lemma pending_range g : 0 <= pending g <= zn (nplayers g).
+Proof. unfold pending, nplayers, zn. pose proof (filter_len_le (fun p => negb (p_acted p)) (g_players g)). lia. Qed.
+
+Lemma pending_upd_acted g i f :
+  (i < nplayers g)%nat -> p_acted (get_p g i) = false -> p_acted (f (get_p g i)) = true ->
+  pending (upd_p g i f) = pending g - 1.
+Proof.
+  unfold pending, upd_p, get_p, nplayers. cbn [with_players g_players]. generalize (g_players g) as l. intros l. revert i.
+  induction l as [|y t IH]; intros i Hi Ha Hf; [simpl in Hi; lia|].
+  destruct i as [|i]; cbn [update_nth nth filter] in *.
+  - rewrite Ha, Hf. cbn [negb length]. unfold zn. lia.
+  - cbn [length] in Hi. destruct (negb (p_acted y)); cbn [length]; unfold zn in *; specialize (IH i ltac:(lia) Ha Hf); lia.
+Qed.
+
+Lemma seats_stacks_le l : (forall p, In p l -> seat_ok p) ->
+  0 <= zsum (map p_stack l) <= zsum (map p_bankroll l).
+Proof.
+  induction l as [|p t IH]; intros H; simpl; [lia|].
+  destruct (H p (or_introl eq_refl)) as (A & B & C & D & F). specialize (IH (fun q Hq => H q (or_intror Hq))). lia.
+Qed.
+
+Lemma mu_range g : (forall i, (i < nplayers g)%nat -> seat_ok (get_p g i)) -> 0 <= mu g <= Wbound g - 1.
+Proof.
+  intros Hs. unfold mu, Wbound.
+  assert (H : 0 <= stacks g <= bankrolls g).
+  { apply seats_stacks_le. intros p Hp. destruct (In_nth _ _ dflt_p Hp) as (i & Hi & <-). apply Hs. exact Hi. }
+  pose proof (pending_range g). assert (0 <= zn (nplayers g)) by (unfold zn; lia). nia.
+Qed.
+
+Lemma bankrolls_step g o : bankrolls (fst (step g o)) = bankrolls g.
+Proof.
+  unfold bankrolls. change (map p_bankroll (g_players ?x)) with (gv p_bankroll x).
+  rewrite (gv_step p_bankroll); try reflexivity.
+Qed.
+
+Lemma available_facts s p a : In a (available_actions s p) -> a <> APass ->
+  p_stack p <> 0 /\ (a = ACall -> p_wager p < st_cw s) /\ (a = ARaise -> p_wager p < st_cw s \/ st_cw s <> 0).
+Proof.
+  unfold available_actions. destruct (p_fold p); [intros [<-|[]] H; contradiction|].
+  destruct (p_stack p =? 0) eqn:Es; [intros [<-|[]] H; contradiction|]. apply Z.eqb_neq in Es.
+  intros Hin _. split; [exact Es|].
+  destruct (p_wager p <? st_cw s) eqn:Ew; [apply Z.ltb_lt in Ew|apply Z.ltb_ge in Ew].
+  - split; intros _; [exact Ew|left; exact Ew].
+  - split.
+    + intros ->. destruct Hin as [H|[H|Hin]]; try discriminate.
+      destruct (st_minibet s <=? p_initial p); [|contradiction]. destruct (st_cw s =? 0); destruct Hin as [H|[]]; discriminate.
+    + intros ->. right. destruct Hin as [H|[H|Hin]]; try discriminate.
+      destruct (st_minibet s <=? p_initial p); [|contradiction].
+      destruct (st_cw s =? 0) eqn:Ec; [destruct Hin as [H|[]]; discriminate|apply Z.eqb_neq in Ec; exact Ec].
+Qed.
+
+Lemma mu_set_last g a t v : mu (set_last g a t v) = mu g. Proof. reflexivity. Qed.
+Lemma mu_with_st g s : mu (with_st g s) = mu g. Proof. reflexivity. Qed.
+Lemma stacks_with_st g s : stacks (with_st g s) = stacks g. Proof. reflexivity. Qed.
+
+Lemma mu_after_pay g0 g i chips :
+  stacks g0 = stacks g -> nplayers g0 = nplayers g -> (i < nplayers g0)%nat ->
+  seat_ok (get_p g0 i) -> p_stack (get_p g0 i) <> 0 -> 0 < chips ->
+  mu (pay g0 i chips true) < mu g.
+Proof.
+  intros Hs Hn Hi Hok Hst Hc. unfold mu. rewrite pay_nplayers, Hn.
+  pose proof (stacks_pay_lt g0 i chips true Hi Hok Hc Hst) as H1. rewrite Hs in H1.
+  pose proof (pending_range (pay g0 i chips true)) as H2. rewrite pay_nplayers, Hn in H2.
+  pose proof (pending_range g) as H3. assert (0 <= zn (nplayers g)) by (unfold zn; lia). nia.
+Qed.
+
+Lemma stacks_upd_neutral g i f : (forall p, chips_of (f p) = chips_of p) -> stacks (upd_p g i f) = stacks g.
+Proof. intros H. apply stacks_view. apply cv_upd_neutral. exact H. Qed.
+
+Lemma seat_upd_neutral g i f : (i < nplayers g)%nat -> (forall p, chips_of (f p) = chips_of p) ->
+  chips_of (get_p (upd_p g i f) i) = chips_of (get_p g i).
+Proof. intros Hi H. rewrite get_p_upd_same by exact Hi. apply H. Qed.
+
+Lemma pay_step_facts g0 g i chips :
+  stacks g0 = stacks g -> nplayers g0 = nplayers g -> (i < nplayers g)%nat ->
+  chips_of (get_p g0 i) = chips_of (get_p g i) -> seat_ok (get_p g i) -> p_stack (get_p g i) <> 0 -> 0 < chips ->
+  st_event (g_st g0) = EvRoundStarted -> st_round (g_st g0) = st_round (g_st g) ->
+  let g2 := pay g0 i chips true in
+  st_event (g_st g2) = EvRoundStarted /\ st_round (g_st g2) = st_round (g_st g) /\ nplayers g2 = nplayers g /\ mu g2 < mu g.
+Proof.
+  intros Hs Hn Hi Hch Hseat Hstk Hc Ev0 Er0 g2.
+  assert (Hph : ph g2 = ph g0) by apply ph_pay. destruct (event_of_ph _ _ _ Hph) as [E1 E2].
+  assert (Hseat0 : seat_ok (get_p g0 i)) by (eapply seat_ok_chips; [symmetry; exact Hch|exact Hseat]).
+  assert (Hstk0 : p_stack (get_p g0 i) <> 0) by (unfold chips_of in Hch; injection Hch as _ _ -> _ _; exact Hstk).
+  repeat split; try congruence.
+  - unfold g2. rewrite pay_nplayers. exact Hn.
+  - apply mu_after_pay; try assumption. rewrite Hn. exact Hi.
+Qed.
+
+(* an accepted action: bookkeeping that strictly decreases mu, followed by "ask the next seat" *)
+Lemma act_mu g i a x :
+  Good g -> snd (act_of g i a x) = Ok ->
+  exists g', fst (act_of g i a x) = request_action g' /\ st_event (g_st g') = EvRoundStarted /\
+             st_round (g_st g') = st_round (g_st g) /\ nplayers g' = nplayers g /\ mu g' < mu g.
+Proof.
+  intros [HI HO HK P _] Hok.
+  assert (Ctx : forall b, allowed g i b = true ->
+            i = st_cur (g_st g) /\ st_event (g_st g) = EvRoundStarted /\ (i < nplayers g)%nat /\
+            p_acted (get_p g i) = false /\ seat_ok (get_p g i) /\ In b (available_actions (g_st g) (get_p g i)) /\ Cinv g).
+  { intros b Hb. destruct (accepted_is_current g i b HI HO Hb) as [Ei Ev]. destruct (oi_cur g HO Ev) as [Hc Ho].
+    rewrite <- Ei in Hc, Ho.
+    split; [exact Ei|]. split; [exact Ev|]. split; [exact Hc|].
+    split; [rewrite Ei; apply (pi_cur g P Ev)|].
+    split; [apply (c0_seats g (inv_chips g HI)); exact Hc|].
+    split; [rewrite <- Ho; apply allowed_in; exact Hb|].
+    apply Inv_Cinv; [exact HI|rewrite Ev; discriminate]. }
+  assert (Simple : forall (f : pstate -> pstate) t v, (forall p, chips_of (f p) = chips_of p) -> (forall p, p_acted (f p) = true) ->
+            forall b, allowed g i b = true ->
+            exists g', resume (set_last (upd_p g i f) (zn i) t v) = request_action g' /\ st_event (g_st g') = EvRoundStarted /\
+                       st_round (g_st g') = st_round (g_st g) /\ nplayers g' = nplayers g /\ mu g' < mu g).
+  { intros f t v Hf Ha b Hb. destruct (Ctx b Hb) as (Ei & Ev & Hi & Hact & _).
+    exists (set_last (upd_p g i f) (zn i) t v).
+    assert (E' : st_event (g_st (set_last (upd_p g i f) (zn i) t v)) = EvRoundStarted) by exact Ev.
+    split; [unfold resume; rewrite E'; reflexivity|]. split; [exact E'|]. split; [reflexivity|].
+    split; [unfold set_last; rewrite nplayers_with_st; apply nplayers_upd|].
+    rewrite mu_set_last. unfold mu. rewrite nplayers_upd, stacks_upd_neutral by exact Hf.
+    rewrite pending_upd_acted by (try assumption; apply Ha). lia. }
+  (* the acting seat after the bookkeeping common to call, all-in, bet and raise *)
+  assert (Pre : forall d b, allowed g i b = true -> b <> APass ->
+            let g1 := upd_p g i (fun p => p_set_acted (p_set_did p d) true) in
+            stacks g1 = stacks g /\ nplayers g1 = nplayers g /\ (i < nplayers g)%nat /\
+            chips_of (get_p g1 i) = chips_of (get_p g i) /\ seat_ok (get_p g i) /\ p_stack (get_p g i) <> 0 /\
+            st_event (g_st g1) = EvRoundStarted /\ st_round (g_st g1) = st_round (g_st g)).
+  { intros d b Hb Hnp g1. destruct (Ctx b Hb) as (Ei & Ev & Hi & Hact & Hseat & Hin & _).
+    destruct (available_facts _ _ b Hin Hnp) as (Hstk & _).
+    split; [apply stacks_upd_neutral; reflexivity|]. split; [apply nplayers_upd|]. split; [exact Hi|].
+    split; [apply seat_upd_neutral; [exact Hi|reflexivity]|]. split; [exact Hseat|]. split; [exact Hstk|].
+    split; [exact Ev|reflexivity]. }
+  assert (Hcall : snd (act_call g i) = Ok -> exists g', fst (act_call g i) = request_action g' /\ st_event (g_st g') = EvRoundStarted /\
+             st_round (g_st g') = st_round (g_st g) /\ nplayers g' = nplayers g /\ mu g' < mu g).
+  { unfold act_call. destruct (allowed g i ACall) eqn:Ha; [|discriminate]. cbn [negb fst snd]. intros _.
+    destruct (Pre DCall ACall Ha ltac:(discriminate)) as (S1 & N1 & Hi & C1 & Hseat & Hstk & E1 & R1).
+    destruct (Ctx ACall Ha) as (_ & _ & _ & _ & _ & Hin & Hc).
+    destruct (available_facts _ _ ACall Hin ltac:(discriminate)) as (_ & Hw & _). specialize (Hw eq_refl).
+    set (delta := if st_cw (g_st g) <? m_bbb (g_meta g) then m_bbb (g_meta g) - p_wager (get_p g i) else st_cw (g_st g) - p_wager (get_p g i)).
+    assert (Hd : 0 < delta) by (unfold delta; destruct (st_cw (g_st g) <? m_bbb (g_meta g)) eqn:E; [apply Z.ltb_lt in E|]; lia).
+    destruct (pay_step_facts _ g i delta S1 N1 Hi C1 Hseat Hstk Hd E1 R1) as (A1 & A2 & A3 & A4).
+    match goal with |- exists g', resume ?t = request_action g' /\ _ => exists t end.
+    split; [unfold resume; replace (st_event (g_st _)) with EvRoundStarted by (symmetry; exact A1); reflexivity|].
+    split; [exact A1|]. split; [exact A2|]. split; [unfold set_last; rewrite ?nplayers_with_st; exact A3|exact A4]. }
+  assert (Hallin : snd (act_allin g i) = Ok -> exists g', fst (act_allin g i) = request_action g' /\ st_event (g_st g') = EvRoundStarted /\
+             st_round (g_st g') = st_round (g_st g) /\ nplayers g' = nplayers g /\ mu g' < mu g).
+  { unfold act_allin. destruct (allowed g i AAllin) eqn:Ha; [|discriminate]. cbn [negb fst snd]. intros _.
+    destruct (Pre DAllin AAllin Ha ltac:(discriminate)) as (S1 & N1 & Hi & C1 & Hseat & Hstk & E1 & R1).
+    set (g1 := upd_p g i (fun p => p_set_acted (p_set_did p DAllin) true)) in *.
+    assert (Hs1 : p_stack (get_p g1 i) = p_stack (get_p g i)) by (unfold chips_of in C1; injection C1 as _ _ -> _ _; reflexivity).
+    assert (Hd : 0 < p_stack (get_p g1 i)) by (rewrite Hs1; destruct Hseat as (_ & _ & ? & _); lia).
+    match goal with |- context [pay ?gg i _ true] => set (g2 := gg) end.
+    assert (G2 : stacks g2 = stacks g /\ nplayers g2 = nplayers g /\ chips_of (get_p g2 i) = chips_of (get_p g i) /\
+                 st_event (g_st g2) = EvRoundStarted /\ st_round (g_st g2) = st_round (g_st g)).
+    { unfold g2. match goal with |- context [if ?c then _ else _] => destruct c end; repeat split; assumption. }
+    destruct G2 as (S2 & N2 & C2 & E2 & R2).
+    destruct (pay_step_facts g2 g i _ S2 N2 Hi C2 Hseat Hstk Hd E2 R2) as (A1 & A2 & A3 & A4).
+    match goal with |- exists g', resume ?t = request_action g' /\ _ => exists t end.
+    split; [unfold resume; replace (st_event (g_st _)) with EvRoundStarted by (symmetry; exact A1); reflexivity|].
+    split; [exact A1|]. split; [exact A2|]. split; [unfold set_last; rewrite ?nplayers_with_st; exact A3|exact A4]. }
+  destruct a; cbn [act_of] in *.
+  - unfold act_pass in *. destruct (allowed g i APass) eqn:Ha; [|discriminate]. cbn [negb fst snd] in *.
+    apply (Simple (fun p => p_set_acted p true) LPass 0 ltac:(reflexivity) ltac:(reflexivity) APass Ha).
+  - unfold act_fold in *. destruct (allowed g i AFold) eqn:Ha; [|discriminate]. cbn [negb fst snd] in *.
+    apply (Simple (fun p => p_set_acted (p_set_did (p_set_fold p true) DFold) true) LFold 0 ltac:(reflexivity) ltac:(reflexivity) AFold Ha).
+  - unfold act_check in *. destruct (allowed g i ACheck) eqn:Ha; [|discriminate]. cbn [negb fst snd] in *.
+    apply (Simple (fun p => p_set_acted (p_set_did p DCheck) true) LCheck 0 ltac:(reflexivity) ltac:(reflexivity) ACheck Ha).
+  - apply Hcall. exact Hok.
+  - apply Hallin. exact Hok.
+  - unfold act_bet in *. destruct (allowed g i ABet) eqn:Ha; [|discriminate]. cbn [negb] in *.
+    destruct (x <=? 0) eqn:Ex; [discriminate|]. apply Z.leb_gt in Ex.
+    destruct (_ <=? x); [apply Hallin; exact Hok|]. cbn [fst snd] in *.
+    destruct (Pre DBet ABet Ha ltac:(discriminate)) as (S1 & N1 & Hi & C1 & Hseat & Hstk & E1 & R1).
+    destruct (pay_step_facts _ g i x S1 N1 Hi C1 Hseat Hstk Ex E1 R1) as (A1 & A2 & A3 & A4).
+    match goal with |- exists g', resume ?t = request_action g' /\ _ => exists t end.
+    split; [unfold resume; replace (st_event (g_st _)) with EvRoundStarted by (symmetry; exact A1); reflexivity|].
+    split; [exact A1|]. split; [exact A2|]. split; [unfold set_last; rewrite ?nplayers_with_st; exact A3|exact A4].
+  - unfold act_raise in *. destruct (allowed g i ARaise) eqn:Ha; [|discriminate]. cbn [negb] in *.
+    destruct ((x =? 0) || (x <? st_cw (g_st g))) eqn:E1; [discriminate|]. apply orb_false_elim in E1 as [E1a E1b].
+    apply Z.eqb_neq in E1a. apply Z.ltb_ge in E1b.
+    destruct (x =? st_cw (g_st g)) eqn:E2; [apply Hcall; exact Hok|]. apply Z.eqb_neq in E2.
+    destruct (_ || _); [apply Hallin; exact Hok|]. cbn [fst snd] in *.
+    destruct (Pre DRaise ARaise Ha ltac:(discriminate)) as (S1 & N1 & Hi & C1 & Hseat & Hstk & Ev1 & R1).
+    destruct (Ctx ARaise Ha) as (_ & _ & _ & _ & _ & Hin & Hc).
+    destruct (available_facts _ _ ARaise Hin ltac:(discriminate)) as (_ & _ & Hr). specialize (Hr eq_refl).
+    pose proof (ci_le g Hc i Hi) as Hle. pose proof (ci_cw g Hc) as Hcw. pose proof (ci_prs g Hc) as Hprs.
+    destruct Hseat as (B1 & B2 & B3 & B4 & B5).
+    assert (Hcwpos : 0 < st_cw (g_st g)) by (destruct Hr; lia).
+    match goal with |- context [pay ?gg i ?rr true] => set (g2 := gg); set (req := rr) end.
+    assert (Hreq : 0 < req).
+    { unfold req. destruct (m_limit_pot (g_meta g) && _); lia. }
+    assert (G2 : stacks g2 = stacks g /\ nplayers g2 = nplayers g /\ chips_of (get_p g2 i) = chips_of (get_p g i) /\
+                 st_event (g_st g2) = EvRoundStarted /\ st_round (g_st g2) = st_round (g_st g)).
+    { unfold g2. repeat split; assumption. }
+    destruct G2 as (S2 & N2 & C2 & Ev2 & R2).
+    destruct (pay_step_facts g2 g i req S2 N2 Hi C2 (conj B1 (conj B2 (conj B3 (conj B4 B5)))) Hstk Hreq Ev2 R2) as (A1 & A2 & A3 & A4).
+    match goal with |- exists g', resume ?t = request_action g' /\ _ => exists t end.
+    split; [unfold resume; replace (st_event (g_st _)) with EvRoundStarted by (symmetry; exact A1); reflexivity|].
+    split; [exact A1|]. split; [exact A2|]. split; [unfold set_last; rewrite ?nplayers_with_st; exact A3|exact A4].
+  - exfalso. unfold act_pay in Hok. destruct (allowed g i APay) eqn:Ha; [|discriminate].
+    pose proof (inv_nopay g HI i) as Hn. unfold allowed in Ha. simpl in Hn. rewrite Hn in Ha. discriminate.
+Qed.
+
+Lemma pending_set_current g n : pending (set_current g n) = pending g.
+Proof.
+  assert (H : gv p_acted (set_current g n) = gv p_acted g).
+  { unfold set_current. rewrite (gv_upd p_acted _ n) by reflexivity.
+    transitivity (gv p_acted (upd_p g (st_cur (g_st g)) (fun p => p_set_allowed p []))); [reflexivity|].
+    apply (gv_upd p_acted). reflexivity. }
+  unfold gv in H. unfold pending.
+  assert (G : forall l l' : list pstate, map p_acted l = map p_acted l' ->
+              length (filter (fun p => negb (p_acted p)) l) = length (filter (fun p => negb (p_acted p)) l')).
+  { induction l as [|y t IH]; intros [|y' t'] E; simpl in *; try discriminate; [reflexivity|].
+    injection E as E1 E2. rewrite E1. destruct (negb (p_acted y')); simpl; rewrite (IH t' E2); reflexivity. }
+  rewrite (G _ _ H). reflexivity.
+Qed.
+
+Lemma request_action_mu g :
+  st_event (g_st (request_action g)) = EvRoundStarted -> mu (request_action g) = mu g.
+Proof.
+  unfold request_action.
+  destruct (Nat.eqb (alive_count g) 1); [simpl; discriminate|].
+  destruct (Nat.eqb (movable_count g) 0); [simpl; discriminate|].
+  destruct (p_acted (get_p g (next_idx g))); [simpl; discriminate|]. intros _.
+  unfold mu. rewrite nplayers_set_current, pending_set_current, (stacks_view _ _ (cv_set_current g _)). reflexivity.
+Qed.
+
+(* the table operations move the hand to a later phase *)
+Lemma pos_do_ready g : Good g -> snd (do_ready g) = Ok -> (pos_of (ph g) < pos_of (ph (fst (do_ready g))))%nat.
+Proof.
+  intros [HI HO HK P _]. pose proof (k2_cards g HK) as K. unfold do_ready.
+  destruct (event_eqb (st_event (g_st g)) EvReadyRequested) eqn:Ee; [|discriminate]. cbn [negb].
+  assert (He : st_event (g_st g) = EvReadyRequested) by (destruct (st_event (g_st g)); try discriminate; reflexivity).
+  assert (Hph : ph g = (EvReadyRequested, st_round (g_st (reset_all g)))) by (unfold ph; rewrite He; reflexivity).
+  rewrite Hph. destruct (st_round (g_st (reset_all g))) eqn:Er.
+  1: { destruct (0 <? _); cbn [fst snd]; [intros _; simpl; lia|]. intros Ok1.
+       destruct (ph_enter_preflop _ Ok1) as [H|H]; rewrite H; simpl; lia. }
+  all: cbn [fst snd]; intros _; destruct (ph_start_round (reset_all g)) as [H|H]; rewrite H, Er; simpl; lia.
+Qed.
+
+Lemma pos_do_pay_ante g : Good g -> snd (do_pay_ante g) = Ok -> (pos_of (ph g) < pos_of (ph (fst (do_pay_ante g))))%nat.
+Proof.
+  intros [HI HO HK P _]. unfold do_pay_ante.
+  destruct (m_ante (g_meta g) =? 0); [discriminate|].
+  destruct (event_eqb (st_event (g_st g)) EvAnteRequested) eqn:Ee; [|discriminate]. cbn [negb].
+  assert (He : st_event (g_st g) = EvAnteRequested) by (destruct (st_event (g_st g)); try discriminate; reflexivity).
+  assert (Hph : pos_of (ph g) = 1%nat) by (unfold ph; rewrite He; reflexivity). rewrite Hph.
+  destruct (ante_loop (player_order g) g) as [g1 [|]]; [|discriminate]. intros Ok1.
+  destruct (ph_enter_preflop _ Ok1) as [H|H]; rewrite H; simpl; lia.
+Qed.
+
+Lemma pos_do_pay_blinds g : Good g -> snd (do_pay_blinds g) = Ok -> (pos_of (ph g) < pos_of (ph (fst (do_pay_blinds g))))%nat.
+Proof.
+  intros [HI HO HK P _]. unfold do_pay_blinds.
+  destruct (event_eqb (st_event (g_st g)) EvBlindsRequested) eqn:Ee; [|discriminate]. cbn [negb fst snd]. intros _.
+  assert (He : st_event (g_st g) = EvBlindsRequested) by (destruct (st_event (g_st g)); try discriminate; reflexivity).
+  assert (Hr : st_round (g_st g) = Preflop) by (pose proof (pi_legal g P) as L; unfold ph in L; rewrite He in L; exact L).
+  assert (Hph : pos_of (ph g) = 2%nat) by (unfold ph; rewrite He; reflexivity). rewrite Hph.
+  set (g1 := fold_left pay_blind (player_order g) g).
+  set (g2 := with_st g1 (st_set_prs (g_st g1) (if 0 <? m_bbb (g_meta g1) then m_bbb (g_meta g1) else m_bdealer (g_meta g1)))).
+  assert (Hph2 : ph (reset_all g2) = ph g) by (rewrite ph_reset_all; unfold g2; transitivity (ph g1); [reflexivity|apply ph_fold_pay_blind]).
+  destruct (event_of_ph _ _ _ Hph2) as [_ R2]. rewrite Hr in R2.
+  destruct (ph_prepare_round (reset_all g2)) as [H|[H H']]; [|rewrite R2 in H'; contradiction].
+  rewrite H, R2. simpl. lia.
+Qed.
+
+Lemma pos_do_next g : Good g -> snd (do_next g) = Ok -> (pos_of (ph g) < pos_of (ph (fst (do_next g))))%nat.
+Proof.
+  intros [HI HO HK P _]. unfold do_next.
+  destruct (event_eqb (st_event (g_st g)) EvRoundClosed) eqn:Ee; [|discriminate]. cbn [negb].
+  assert (He : st_event (g_st g) = EvRoundClosed) by (destruct (st_event (g_st g)); try discriminate; reflexivity).
+  assert (Hr : st_round (g_st g) <> RNone) by (pose proof (pi_legal g P) as L; unfold ph in L; rewrite He in L; exact L).
+  set (g0 := set_last g (-1) LNext 0). set (g1 := reset_all_status (reset_round_status g0)).
+  assert (R1 : st_round (g_st g1) = st_round (g_st g)) by reflexivity.
+  set (guard := fun res : gstate * outcome => match res with (_, Panic) => (g, Panic) | x => x end).
+  assert (Hgc : snd (guard (game_completed g1)) = Ok ->
+                (pos_of (EvRoundClosed, st_round (g_st g)) < pos_of (ph (fst (guard (game_completed g1)))))%nat).
+  { unfold guard. pose proof (ph_game_completed g1) as H. destruct (game_completed g1) as [g2 o2]. cbn [fst snd] in *.
+    destruct o2; cbn [fst snd]; try discriminate. intros _. rewrite (H eq_refl). destruct (st_round (g_st g)); simpl; lia. }
+  assert (Hst : forall r, r <> RNone -> (3 * round_num (st_round (g_st g)) + 2 < 3 * round_num r)%nat ->
+                snd (guard (enter_street g1 r)) = Ok ->
+                (pos_of (EvRoundClosed, st_round (g_st g)) < pos_of (ph (fst (guard (enter_street g1 r)))))%nat).
+  { intros r Hrn Hlt. unfold guard. pose proof (ph_enter_street g1 r) as H. destruct (enter_street g1 r) as [g2 o2]. cbn [fst snd] in *.
+    destruct o2; cbn [fst snd]; try discriminate. intros _.
+    destruct (H eq_refl) as [H1|[H1 _]]; rewrite H1; destruct (st_round (g_st g)), r; simpl in *; try lia; contradiction. }
+  assert (Hph : ph g = (EvRoundClosed, st_round (g_st g))) by (unfold ph; rewrite He; reflexivity). rewrite Hph.
+  change (st_round (g_st g0)) with (st_round (g_st g)).
+  destruct (st_round (g_st g)) eqn:Er; [contradiction| | | |].
+  - destruct (Nat.eqb (alive_count g1) 1); [exact Hgc|]. apply Hst; [discriminate|simpl; lia].
+  - destruct (Nat.eqb (alive_count g1) 1); [exact Hgc|]. apply Hst; [discriminate|simpl; lia].
+  - destruct (Nat.eqb (alive_count g1) 1); [exact Hgc|]. apply Hst; [discriminate|simpl; lia].
+  - destruct (Nat.eqb (alive_count g1) 1); exact Hgc.
+Qed.
+
+(* ---------- (6) refusals change nothing; every accepted step decreases the measure ---------- *)
+Theorem refused_changes_nothing g o : Good g -> snd (step g o) <> Ok -> fst (step g o) = g.
+Proof.
+  intros HG Hno. pose proof (progress g HG) as Pr. destruct o as [| | | |who a x]; cbn [step] in *.
+  - unfold do_ready in *. destruct (event_eqb (st_event (g_st g)) EvReadyRequested) eqn:Ee; [|reflexivity].
+    assert (He : st_event (g_st g) = EvReadyRequested) by (destruct (st_event (g_st g)); try discriminate; reflexivity).
+    rewrite He in Pr. exfalso. apply Hno. exact Pr.
+  - destruct (event_eqb (st_event (g_st g)) EvAnteRequested) eqn:Ee.
+    + assert (He : st_event (g_st g) = EvAnteRequested) by (destruct (st_event (g_st g)); try discriminate; reflexivity).
+      rewrite He in Pr. contradiction.
+    + unfold do_pay_ante. rewrite Ee. destruct (_ =? 0); reflexivity.
+  - unfold do_pay_blinds in *. destruct (event_eqb (st_event (g_st g)) EvBlindsRequested); [cbn [negb snd] in Hno; contradiction|reflexivity].
+  - destruct (event_eqb (st_event (g_st g)) EvRoundClosed) eqn:Ee.
+    + assert (He : st_event (g_st g) = EvRoundClosed) by (destruct (st_event (g_st g)); try discriminate; reflexivity).
+      rewrite He in Pr. contradiction.
+    + unfold do_next. rewrite Ee. reflexivity.
+  - destruct (negb _); [reflexivity|]. apply (act_refused_same g _ a x). exact Hno.
+Qed.
+
+Lemma legal_pos_15 g : Pinv g -> (pos_of (ph g) <= 15)%nat.
+Proof. intros P. apply legal_pos_le. apply (pi_legal g P). Qed.
+
+Lemma measure_nonneg g : Good g -> 0 <= measure g.
+Proof.
+  intros [HI _ _ P _]. unfold measure. pose proof (legal_pos_15 g P) as H.
+  pose proof (mu_range g (c0_seats g (inv_chips g HI))) as M.
+  assert (0 <= 15 - zn (pos_of (ph g))) by (unfold zn; lia). nia.
+Qed.
+
+Theorem measure_decreases g o : Good g -> snd (step g o) = Ok -> measure (fst (step g o)) < measure g.
+Proof.
+  intros HG Hok. pose proof (Good_step g o HG) as HG'.
+  assert (HW : Wbound (fst (step g o)) = Wbound g) by (unfold Wbound; rewrite bankrolls_step, nplayers_step; reflexivity).
+  pose proof (mu_range g (c0_seats g (inv_chips g (good_inv g HG)))) as M.
+  pose proof (mu_range _ (c0_seats _ (inv_chips _ (good_inv _ HG')))) as M'. rewrite HW in M'.
+  (* either the phase moves on, or it stays and mu decreases *)
+  assert (D : (pos_of (ph g) < pos_of (ph (fst (step g o))))%nat \/
+              (pos_of (ph (fst (step g o))) = pos_of (ph g) /\ mu (fst (step g o)) < mu g)).
+  { destruct o as [| | | |who a x]; cbn [step] in *.
+    - left. apply pos_do_ready; assumption.
+    - left. apply pos_do_pay_ante; assumption.
+    - left. apply pos_do_pay_blinds; assumption.
+    - left. apply pos_do_next; assumption.
+    - destruct (negb _); [discriminate|].
+      match goal with |- context [ph (fst ?r)] => change r with (act_of g (match who with Some i => i | None => st_cur (g_st g) end) a x) in * end.
+      set (i := match who with Some i => i | None => st_cur (g_st g) end) in *.
+      destruct (act_mu g i a x HG Hok) as (g' & E & Ev & Er & Hn & Hmu). rewrite E.
+      assert (Hphg : ph g = (EvRoundStarted, st_round (g_st g))).
+      { unfold ph. f_equal. destruct (st_event (g_st g)) eqn:Evg; try reflexivity; exfalso;
+          assert (Hno : no_offers g) by (apply (inv_offers g (good_inv g HG)); rewrite Evg; discriminate);
+          unfold act_of in Hok; destruct a; cbn in Hok;
+          unfold act_pass, act_fold, act_check, act_call, act_allin, act_bet, act_raise, act_pay in Hok;
+          rewrite ?(allowed_nil g i _ (Hno i)) in Hok; cbn in Hok; discriminate. }
+      destruct (ph_request_action g') as [H|H].
+      + right. destruct (event_of_ph _ _ _ H) as [E1 _]. rewrite Ev in E1.
+        split; [rewrite H, Hphg; unfold ph; rewrite Ev, Er; reflexivity|]. rewrite (request_action_mu g' E1). exact Hmu.
+      + left. rewrite H, Hphg, Er. destruct (st_round (g_st g)); simpl; lia. }
+  unfold measure. rewrite HW.
+  assert (HWpos : 0 < Wbound g) by lia.
+  pose proof (legal_pos_15 _ (good_phase _ HG')) as L'.
+  destruct D as [D|[D1 D2]].
+  - assert (15 - zn (pos_of (ph (fst (step g o)))) <= 15 - zn (pos_of (ph g)) - 1) by (unfold zn; lia). nia.
+  - rewrite D1. lia.
+Qed.
+
+(* ---------- (7) every hand finishes ---------- *)
+(* the number of accepted steps in a run *)
+Fixpoint accepted (g : gstate) (ops : list op) : nat :=
+  match ops with
+  | [] => 0
+  | o :: t => (match snd (step g o) with Ok => 1 | _ => 0 end + accepted (fst (step g o)) t)%nat
+  end.
+
+Theorem accepted_steps_bounded ops : forall g, Good g -> zn (accepted g ops) <= measure g.
+Proof.
+  induction ops as [|o t IH]; intros g HG; cbn [accepted].
+  - unfold zn. simpl. apply measure_nonneg. exact HG.
+  - pose proof (IH _ (Good_step g o HG)) as H. unfold zn in *. rewrite Nat2Z.inj_add.
+    destruct (outcome_ok_dec (snd (step g o))) as [Hok|Hno].
+    + pose proof (measure_decreases g o HG Hok). rewrite Hok. simpl Z.of_nat at 1. lia.
+    + rewrite (refused_changes_nothing g o HG Hno) in *. destruct (snd (step g o)); try contradiction; simpl Z.of_nat at 1; lia.
+Qed.
+
+(* the operation a state is waiting for (for a betting round: the first action offered) *)
+Definition expected_op (g : gstate) : op :=
+  match st_event (g_st g) with
+  | EvAnteRequested => OPayAnte
+  | EvBlindsRequested => OPayBlinds
+  | EvRoundClosed => ONext
+  | EvRoundStarted =>
+      match p_allowed (get_p g (st_cur (g_st g))) with
+      | APass :: _ => OAct None APass 0
+      | _ => OAct None AAllin 0
+      end
+  | _ => OReady
+  end.
+
+Lemma expected_op_accepted g : Good g -> st_event (g_st g) <> EvGameClosed -> snd (step g (expected_op g)) = Ok.
+Proof.
+  intros HG Hne. pose proof (progress g HG) as Pr. unfold expected_op.
+  destruct (st_event (g_st g)) eqn:Ev; try exact Pr; try contradiction.
+  destruct Pr as [Hne' Hall].
+  pose proof (oi_cur g (good_offers g HG) Ev) as [_ Ho].
+  destruct (p_allowed (get_p g (st_cur (g_st g)))) as [|a l] eqn:Ea; [contradiction|].
+  assert (Hin : In AAllin (a :: l) \/ a = APass).
+  { destruct a; try (left; rewrite Ho; apply (available_allin _ _ _ ltac:(rewrite <- Ho; left; reflexivity)); discriminate). right. reflexivity. }
+  destruct a; try (apply Hall; [destruct Hin as [H|H]; [exact H|discriminate]|discriminate|discriminate]).
+  apply Hall; [now left|discriminate|discriminate].
+Qed.
+
+(* driving a hand by always doing what it waits for closes it within `measure` steps *)
+Theorem hand_finishes : forall (n : nat) g, Good g -> measure g <= zn n ->
+  exists ops, (length ops <= n)%nat /\ st_event (g_st (run g ops)) = EvGameClosed.
+Proof.
+  induction n as [|n IH]; intros g HG Hm.
+  - destruct (st_event (g_st g)) eqn:Ev; try (exists []; split; [simpl; lia|exact Ev]);
+      exfalso; (assert (Hne : st_event (g_st g) <> EvGameClosed) by (rewrite Ev; discriminate));
+      pose proof (measure_decreases g _ HG (expected_op_accepted g HG Hne)) as Hd;
+      pose proof (measure_nonneg _ (Good_step g (expected_op g) HG)); unfold zn in Hm; simpl in Hm; lia.
+  - destruct (st_event (g_st g)) eqn:Ev; try (exists []; split; [simpl; lia|exact Ev]);
+      (assert (Hne : st_event (g_st g) <> EvGameClosed) by (rewrite Ev; discriminate));
+      pose proof (measure_decreases g _ HG (expected_op_accepted g HG Hne)) as Hd;
+      (destruct (IH (fst (step g (expected_op g))) (Good_step g _ HG)) as (ops & Hl & Hc); [unfold zn in *; rewrite Nat2Z.inj_succ in Hm; lia|]);
+      exists (expected_op g :: ops); (split; [simpl; lia|exact Hc]).
+Qed.
+
+(* a closed hand carries a result *)
+Definition Cres (g : gstate) : Prop := st_event (g_st g) = EvGameClosed -> g_result g <> None.
+
+Lemma Cres_step g o : Good g -> Cres g -> Cres (fst (step g o)).
+Proof.
+  intros HG HC. destruct (outcome_ok_dec (snd (step g o))) as [Hok|Hno].
+  2: { rewrite (refused_changes_nothing g o HG Hno). exact HC. }
+  intros Ev'. destruct HG as [HI HO HK P HR].
+  destruct o as [| | | |who a x]; cbn [step] in *.
+  - exfalso. revert Ev' Hok. unfold do_ready. destruct (negb _); [discriminate|].
+    destruct (st_round (g_st (reset_all g))).
+    1: { destruct (0 <? _); cbn [fst snd]; [simpl; discriminate|]. intros Ev' Ok1.
+         destruct (ph_enter_preflop _ Ok1) as [H|H]; destruct (event_of_ph _ _ _ H) as [E1 _]; rewrite E1 in Ev'; discriminate. }
+    all: cbn [fst snd]; intros Ev' _; destruct (ph_start_round (reset_all g)) as [H|H]; destruct (event_of_ph _ _ _ H) as [E1 _]; rewrite E1 in Ev'; discriminate.
+  - exfalso. revert Ev' Hok. unfold do_pay_ante. destruct (_ =? 0); [discriminate|]. destruct (negb _); [discriminate|].
+    destruct (ante_loop (player_order g) g) as [g1 [|]]; [|discriminate]. intros Ev' Ok1.
+    destruct (ph_enter_preflop _ Ok1) as [H|H]; destruct (event_of_ph _ _ _ H) as [E1 _]; rewrite E1 in Ev'; discriminate.
+  - exfalso. revert Ev' Hok. unfold do_pay_blinds. destruct (negb _); [discriminate|]. cbn [fst snd]. intros Ev' _.
+    match type of Ev' with context [prepare_round ?y] => destruct (ph_prepare_round y) as [H|[H _]]; destruct (event_of_ph _ _ _ H) as [E1 _]; rewrite E1 in Ev'; discriminate end.
+  - pose proof (Rinv_step g ONext HI HR) as HR'. cbn [step] in HR'. unfold Rinv in HR'.
+    revert Ev' Hok HR'. unfold do_next. destruct (event_eqb (st_event (g_st g)) EvRoundClosed) eqn:Ee; [|discriminate]. cbn [negb].
+    set (g0 := set_last g (-1) LNext 0). set (g1 := reset_all_status (reset_round_status g0)).
+    set (guard := fun res : gstate * outcome => match res with (_, Panic) => (g, Panic) | x => x end).
+    assert (Hgc : st_event (g_st (fst (guard (game_completed g1)))) = EvGameClosed -> snd (guard (game_completed g1)) = Ok ->
+                  g_result (fst (guard (game_completed g1))) <> None).
+    { unfold guard. destruct (game_completed_result g1) as [[E1 E2]|(E1 & E2 & E3 & E4 & E5)];
+        destruct (game_completed g1) as [g2 o2]; cbn [fst snd] in *; subst o2; cbn [fst snd]; [discriminate|].
+      intros _ _. rewrite E4. discriminate. }
+    assert (Hst : forall r, st_event (g_st (fst (guard (enter_street g1 r)))) = EvGameClosed -> snd (guard (enter_street g1 r)) = Ok -> False).
+    { intros r. unfold guard. pose proof (ph_enter_street g1 r) as H. destruct (enter_street g1 r) as [g2 o2]. cbn [fst snd] in *.
+      destruct o2; cbn [fst snd]; try discriminate. intros Ev' _.
+      destruct (H eq_refl) as [H1|[H1 _]]; destruct (event_of_ph _ _ _ H1) as [E1 _]; rewrite E1 in Ev'; discriminate. }
+    destruct (st_round (g_st g0)).
+    + cbn [fst snd]. intros Ev' _ _. exfalso. assert (E : st_event (g_st g) = EvGameClosed) by exact Ev'. rewrite E in Ee. discriminate.
+    + destruct (Nat.eqb (alive_count g1) 1); intros Ev' Ok1 _; [apply Hgc; assumption|exfalso; apply (Hst _ Ev' Ok1)].
+    + destruct (Nat.eqb (alive_count g1) 1); intros Ev' Ok1 _; [apply Hgc; assumption|exfalso; apply (Hst _ Ev' Ok1)].
+    + destruct (Nat.eqb (alive_count g1) 1); intros Ev' Ok1 _; [apply Hgc; assumption|exfalso; apply (Hst _ Ev' Ok1)].
+    + destruct (Nat.eqb (alive_count g1) 1); intros Ev' Ok1 _; apply Hgc; assumption.
+  - exfalso. destruct (negb _); [discriminate|].
+    match type of Hok with snd ?r = Ok => change r with (act_of g (match who with Some i => i | None => st_cur (g_st g) end) a x) in * end.
+    set (i := match who with Some i => i | None => st_cur (g_st g) end) in *.
+    destruct (act_mu g i a x (mkGood g HI HO HK P HR) Hok) as (g' & E & Ev & _). rewrite E in Ev'.
+    destruct (ph_request_action g') as [H|H]; destruct (event_of_ph _ _ _ H) as [E1 _]; rewrite E1 in Ev'; [rewrite Ev in Ev'|]; discriminate.
+Qed.
+
+Lemma Cres_run ops : forall g, Good g -> Cres g -> Cres (run g ops).
+Proof.
+  unfold run. induction ops as [|o t IH]; intros g HG HC; cbn [fold_left]; [exact HC|].
+  apply IH; [apply Good_step; exact HG|apply Cres_step; assumption].
+Qed.
+
+Theorem closed_has_result c deck g ops :
+  cfg_ok c -> length deck = length (c_deck c) -> create c deck = (g, Ok) ->
+  st_event (g_st (run g ops)) = EvGameClosed -> g_result (run g ops) <> None.
+Proof.
+  intros Hc Hl Hcr. apply Cres_run; [apply (Good_reachable c deck g [] Hc Hl Hcr)|].
+  intros E. exfalso. pose proof (Pinv_create c deck g Hcr) as P.
+  unfold create in Hcr.
+  destruct (Nat.ltb _ 2); [discriminate|]. destruct (dealer_opt _); [|discriminate].
+  destruct (existsb _ _); [discriminate|]. destruct (Nat.eqb _ 0); [discriminate|]. destruct (Nat.ltb _ _); [discriminate|].
+  injection Hcr as <-. simpl in E. discriminate.
+Qed.
+
+(* the streets run strictly in order: a step keeps the street or moves to the next one *)
+Theorem street_order g o : Good g ->
+  st_round (g_st (fst (step g o))) = st_round (g_st g) \/
+  round_num (st_round (g_st (fst (step g o)))) = S (round_num (st_round (g_st g))).
+Proof.
+  intros HG. destruct (outcome_ok_dec (snd (step g o))) as [Hok|Hno].
+  2: { rewrite (refused_changes_nothing g o HG Hno). now left. }
+  destruct HG as [HI HO HK P HR].
+  destruct o as [| | | |who a x]; cbn [step] in *.
+  - revert Hok. unfold do_ready. destruct (negb _); [discriminate|].
+    destruct (st_round (g_st (reset_all g))) eqn:Er.
+    1: { assert (Er' : st_round (g_st g) = RNone) by exact Er. rewrite Er'.
+         destruct (0 <? _); cbn [fst snd]; [intros _; left; exact Er|]. intros Ok1. right.
+         destruct (ph_enter_preflop _ Ok1) as [H|H]; destruct (event_of_ph _ _ _ H) as [_ E2]; rewrite E2; reflexivity. }
+    all: cbn [fst snd]; intros _; left; destruct (ph_start_round (reset_all g)) as [H|H]; destruct (event_of_ph _ _ _ H) as [_ E2]; rewrite E2; reflexivity.
+  - revert Hok. unfold do_pay_ante. destruct (_ =? 0); [discriminate|].
+    destruct (event_eqb (st_event (g_st g)) EvAnteRequested) eqn:Ee; [|discriminate]. cbn [negb].
+    assert (He : st_event (g_st g) = EvAnteRequested) by (destruct (st_event (g_st g)); try discriminate; reflexivity).
+    assert (Hr : st_round (g_st g) = RNone) by (pose proof (pi_legal g P) as L; unfold ph in L; rewrite He in L; exact L).
+    destruct (ante_loop (player_order g) g) as [g1 [|]]; [|discriminate]. intros Ok1. right. rewrite Hr.
+    destruct (ph_enter_preflop _ Ok1) as [H|H]; destruct (event_of_ph _ _ _ H) as [_ E2]; rewrite E2; reflexivity.
+  - left. revert Hok. unfold do_pay_blinds. destruct (negb _); [reflexivity|]. cbn [fst snd]. intros _.
+    apply (sv_round g). rewrite sv_prepare_round, sv_reset_all.
+    transitivity (sv (fold_left pay_blind (player_order g) g)); [reflexivity|apply sv_fold_pay_blind].
+  - revert Hok. unfold do_next. destruct (negb _); [discriminate|].
+    set (g0 := set_last g (-1) LNext 0). set (g1 := reset_all_status (reset_round_status g0)).
+    set (guard := fun res : gstate * outcome => match res with (_, Panic) => (g, Panic) | x => x end).
+    assert (Hgc : snd (guard (game_completed g1)) = Ok ->
+                  st_round (g_st (fst (guard (game_completed g1)))) = st_round (g_st g) \/
+                  round_num (st_round (g_st (fst (guard (game_completed g1))))) = S (round_num (st_round (g_st g)))).
+    { unfold guard. pose proof (ph_game_completed g1) as H. destruct (game_completed g1) as [g2 o2]. cbn [fst snd] in *.
+      destruct o2; cbn [fst snd]; try discriminate. intros _. left. destruct (event_of_ph _ _ _ (H eq_refl)) as [_ E2]. exact E2. }
+    assert (Hst : forall r, round_num r = S (round_num (st_round (g_st g))) -> snd (guard (enter_street g1 r)) = Ok ->
+                  st_round (g_st (fst (guard (enter_street g1 r)))) = st_round (g_st g) \/
+                  round_num (st_round (g_st (fst (guard (enter_street g1 r))))) = S (round_num (st_round (g_st g)))).
+    { intros r Hr. unfold guard. pose proof (ph_enter_street g1 r) as H. destruct (enter_street g1 r) as [g2 o2]. cbn [fst snd] in *.
+      destruct o2; cbn [fst snd]; try discriminate. intros _. right.
+      destruct (H eq_refl) as [H1|[H1 _]]; destruct (event_of_ph _ _ _ H1) as [_ E2]; rewrite E2; exact Hr. }
+    change (st_round (g_st g0)) with (st_round (g_st g)).
+    destruct (st_round (g_st g)) eqn:Er.
+    + intros _. left. exact Er.
+    + destruct (Nat.eqb (alive_count g1) 1); [exact Hgc|apply Hst; reflexivity].
+    + destruct (Nat.eqb (alive_count g1) 1); [exact Hgc|apply Hst; reflexivity].
+    + destruct (Nat.eqb (alive_count g1) 1); [exact Hgc|apply Hst; reflexivity].
+    + destruct (Nat.eqb (alive_count g1) 1); exact Hgc.
+  - left. destruct (negb _); [reflexivity|]. apply (sv_round _ _ (sv_act g _ a x)).
+Qed.
